@@ -3,6 +3,7 @@
     Storage::empty; the theorems below are about that save on every well-formed state.  The specification
     object is [valid_pdf] (Storage/Valid.v), an independent reading of the bytes. *)
 From PdfV Require Import Base.Prelude Storage.Prim Storage.Model Storage.Proofs Storage.Syntax Storage.Run Storage.Tables Storage.Valid.
+From PdfV Require Syn.Serialize.
 
 (** Every in-use entry of a saved object points (relative to the header) at its `id gen obj` header. *)
 Theorem C10_offsets : forall ser s tr s' tr',
@@ -47,7 +48,7 @@ Print Assumptions C10_startxref.
     on the model's output in the examples below. *)
 Definition C10_full_statement : Prop :=
   forall s tr s' tr', wf_st s -> start s = 0 -> prefixb HEADER (backend s) = true ->
-    save ser_prim s tr = Ok (s', tr', None) -> valid_pdf (backend s') = true.
+    save Serialize.ser s tr = Ok (s', tr', None) -> valid_pdf (backend s') = true.
 
 (** Storage::empty *)
 Definition empty_storage : st := mkSt [XFree 0 65535] [] [37; 80; 68; 70; 45; 49; 46; 55; 10] 0 [] false.
@@ -60,13 +61,13 @@ Definition build_one_page (info : option dict) : res (st * trailer * option N) :
   let '(s1, page) := promise empty_storage in
   let '(s2, tree) := create s1 (PDict [(kT, n_ [80; 97; 103; 101; 115]); ([75; 105; 100; 115], PArr [PRef (fst page) 0]); ([67; 111; 117; 110; 116], PInt 1)]) in
   let '(s3, rsrc) := create s2 (PDict []) in
-  let '(s4, cont) := create s3 (PStream [(k_Length, PInt 4)] (SPending [113; 10; 81; 10])) in
+  let '(s4, cont) := create s3 (PStreamData [(k_Length, PInt 4)] [113; 10; 81; 10]) in
   do f <- fulfill s4 page (PDict [(kT, n_ [80; 97; 103; 101]); ([80; 97; 114; 101; 110; 116], PRef (fst tree) 0);
                                    ([82; 101; 115; 111; 117; 114; 99; 101; 115], PRef (fst rsrc) 0);
-                                   ([77; 101; 100; 105; 97; 66; 111; 120], PArr [PInt 0; PInt 0; PReal 1142489088; PInt 792]);
+                                   ([77; 101; 100; 105; 97; 66; 111; 120], PArr [PInt 0; PInt 0; PReal [54; 49; 50; 46; 53]; PInt 792]);
                                    ([67; 111; 110; 116; 101; 110; 116; 115], PRef (fst cont) 0); ([82; 111; 116; 97; 116; 101], PInt 90)]);
   let '(s6, cat) := create (fst f) (PDict [(kT, n_ [67; 97; 116; 97; 108; 111; 103]); ([80; 97; 103; 101; 115], PRef (fst tree) 0)]) in
-  save ser_prim s6 (mkTrailer 0 None cat info [[102; 111; 111]; [98; 97; 114]]).
+  save Serialize.ser s6 (mkTrailer 0 None cat info [[102; 111; 111]; [98; 97; 114]]).
 
 Example C10_example_valid :
   match build_one_page None with Ok (s', _, None) => valid_code (backend s') = 0 | _ => False end.
@@ -76,7 +77,7 @@ Example C10_example_valid_info :
   match build_one_page (Some [([84; 105; 116; 108; 101], PStr [104; 105; 40])]) with
   | Ok (s', _, None) => valid_code (backend s') = 0 /\
       (* and a second save of the same document is valid again *)
-      match save ser_prim s' (mkTrailer 0 None (6, 0) None []) with Ok (s'', _, None) => valid_code (backend s'') = 0 | _ => False end
+      match save Serialize.ser s' (mkTrailer 0 None (6, 0) None []) with Ok (s'', _, None) => valid_code (backend s'') = 0 | _ => False end
   | _ => False end.
 Proof. vm_compute. split; reflexivity. Qed.
 
